@@ -414,7 +414,7 @@ func checkC07(p *core.Program, r *core.Report) {
 	r.Count("verifiers", nVerifiers)
 	r.Floor("provers", 2)
 	r.Floor("verifiers", 2)
-	r.Floor("role chains", 12)
+	r.Floor("role chains", 10)
 }
 
 // sameDimField: the i-th dimension (of n) must be the system's batch size (i == 0) or tree depth (i == 1); the two uint32
